@@ -8,7 +8,8 @@ from contracts.polyspec import *
 def _jacobi_ab(rng):
     """Jacobi weight parameters: random, or one of the classical special pairs (Legendre, the four Chebyshev kinds, Gegenbauer,
     pairs with alpha + beta = 0 or -1, where the general recurrence coefficients at n = 0 are 0/0 and the code has a special case)"""
-    special = [(0.0, 0.0), (-0.5, -0.5), (0.5, 0.5), (-0.5, 0.5), (0.5, -0.5), (0.3, -0.3), (-0.25, -0.75), (1.0, 1.0), (2.0, -0.5)]
+    special = [(0.0, 0.0), (-0.5, -0.5), (0.5, 0.5), (-0.5, 0.5), (0.5, -0.5), (0.3, -0.3), (-0.25, -0.75), (1.0, 1.0), (2.0, -0.5),
+               (0.1 + 0.2, -0.3), (-0.7 + 1e-17, -0.3), (0.1 + 0.2 - 1.0, -0.3)]      # alpha+beta a rounding error away from 0 / -1
     if rng.random() < 0.4:
         return special[int(rng.integers(0, len(special)))]
     return float(rng.uniform(-0.9, 3)), float(rng.uniform(-0.9, 3))
@@ -224,6 +225,7 @@ def xy_seq_terms(v):
         got = out[k]
         want = (xe ** m) * (ye ** n)
         if v['rank'] == 2:
+            check('term-shape-%d' % k, shape_is(got, H, W))          # every mode has the coordinates' shape, pure x^m / y^n terms too
             check('term-%d' % k, approx(elem(got, i, j), want, 1e-7))
         else:
             # 1-D x and y: xy_seq multiplies the two 1-D sequences elementwise, defined only for equal lengths
